@@ -22,7 +22,8 @@ SHARD_DEADLINE = {'quick': 300, 'thorough': 3300}
 FORMS = ['keys-int', 'keys-name', 'keys-mixed', 'mapping-int', 'mapping-name', 'kw-canonical', 'kw-permuted', 'kw-mixed', 'grades-values',
          'convenience-values', 'convenience-kw', 'name', 'fromkeysvalues', 'full-values']
 BAD = ['length-mismatch', 'length-mismatch-grades', 'keys-outside-grades', 'kw-outside-grades', 'invalid-grade', 'negative-grade',
-       'graded-incomplete-keys', 'graded-incomplete-mapping', 'graded-incomplete-kw', 'graded-incomplete-name', 'graded-incomplete-fromkw-perm']
+       'graded-incomplete-keys', 'graded-incomplete-mapping', 'graded-incomplete-kw', 'graded-incomplete-name', 'graded-incomplete-fromkw-perm',
+       'kw-blade-outside-algebra']
 KINDS = ['int', 'frac', 'float', 'str', 'sympy', 'ndarray']
 
 
@@ -407,6 +408,20 @@ def bad_case(ctx, alg, iso, cfg, name, what):
 
         def f():
             return alg.purevector(grade=g, **{nm: 2})
+    elif what == 'kw-blade-outside-algebra':
+        # a coefficient supplied for a blade the algebra does not have, next to valid ones: it cannot be reflected, so building a
+        # multivector without it is a silently dropped coefficient
+        names = gen.default_names(d, alg.start_index)
+        outside = hex(alg.start_index + d + rng.randint(0, 2))[2:]
+        if graded:
+            valid = {alg.bin2canon[k]: 1 for k in alg.indices_for_grades[(1,)]}
+        else:
+            valid = {alg.bin2canon[k]: rng.randint(1, 5) for k in gen.random_subset(rng, canon, 3, 1)}
+        bad_name = 'e' + (outside if rng.random() < 0.5 or d < 1 else ''.join(sorted([rng.choice(names), outside])))
+        desc = {'valid_keywords': sorted(valid), 'keyword_outside_algebra': bad_name}
+
+        def f():
+            return alg.multivector(**valid, **{bad_name: 7})
     elif what == 'invalid-grade':
         g = d + rng.randint(1, 3)
         desc = {'grades': [g]}
